@@ -2,30 +2,22 @@
 // xtl iterators and prints, after every call, the call's result and the observable projection
 // (container storage, both iterators seen through three observers).  It contains no oracle.
 //
-// One templated session<K> serves every iterator kind K (adapter = container + begin()/end());
-// every operator is used inside a generic lambda with a decltype return type, so an operator an
-// iterator kind does not provide is a logged {"unsupported":true} result instead of a compile
-// error (the spec rejects it if the kind is supposed to have it).
+// One templated session<K> serves every iterator kind K (iter_kinds.hpp: adapter = container +
+// begin()/end()); every operator is used inside a generic lambda with a decltype return type, so an
+// operator an iterator kind does not provide is a logged {"unsupported":true} result instead of a
+// compile error (the spec rejects it if the kind is supposed to have it).
 //
 // Compile-time switches (set by checks/c12.py):
 //   -DC12_GROUP=<n>           build only one group of kinds (parallel compilation); default all
-//   -DC12_NO_STEP_ARROW       xstepping_iterator<class-type iterator>::operator-> does not compile
-//                             (a body error SFINAE cannot see): log it as unsupported
+//   -DCAPS_<kind>=<mask>      which bodies that SFINAE cannot see compile for this kind on this tree
+//                             (iter_algos.hpp CAP_*: operator->, std::fill, std::reverse, std::sort);
+//                             a call of a switched-off body is logged as unsupported.  Default: all.
 //   -DC12_NO_ARRAY_ITERATORS  xoptional_array / xcomplex_array begin()/end() do not compile:
 //                             every call on these kinds is logged as unsupported
-#include <xtl/xiterator_base.hpp>
-#include <xtl/xdynamic_bitset.hpp>
-#include <xtl/xoptional_sequence.hpp>
-#include <xtl/xcomplex_sequence.hpp>
-#include "vjson.hpp"
-#include <algorithm>
+#include "iter_kinds.hpp"
+#include "iter_algos.hpp"
 #include <iostream>
-#include <iterator>
 #include <list>
-#include <map>
-#include <memory>
-#include <string>
-#include <vector>
 #include <sys/time.h>
 
 #ifndef C12_GROUP
@@ -37,8 +29,6 @@ static const char* const UNSUP = "{\"unsupported\":true}";
 static const long long NA = -99;
 
 // ------------------------------------------------------------------ detection by expression SFINAE
-#define RET(...) -> decltype(__VA_ARGS__) { return __VA_ARGS__; }
-
 template <class F, class... A>
 auto attempt_(int, const std::string&, F&& f, A&&... a) -> decltype(f(std::forward<A>(a)...))
 {
@@ -55,374 +45,6 @@ std::string attempt(const std::string& fallback, F&& f, A&&... a)
     return attempt_(0, fallback, std::forward<F>(f), std::forward<A>(a)...);
 }
 
-template <class It, class = void>
-struct has_traits : std::false_type {};
-template <class It>
-struct has_traits<It, decltype(void(typename std::iterator_traits<It>::iterator_category()))> : std::true_type {};
-
-static std::string tuple_json(std::initializer_list<long long> l)
-{
-    return vj::ints(l);
-}
-
-// ------------------------------------------------------------------ element sequences from the script
-using elem_t = std::vector<long long>;
-static std::vector<elem_t> elems_of(const vj::value& under, bool reversed)
-{
-    std::vector<elem_t> r;
-    for (auto& e : under.a)
-    {
-        elem_t t;
-        for (auto& x : e.a) t.push_back(x.i);
-        r.push_back(t);
-    }
-    if (reversed) std::reverse(r.begin(), r.end());
-    return r;
-}
-static std::string under_json(std::vector<elem_t> v, bool reversed)
-{
-    if (reversed) std::reverse(v.begin(), v.end());
-    std::string s = "[";
-    for (size_t i = 0; i < v.size(); ++i) { if (i) s += ','; s += vj::ints(v[i]); }
-    return s + "]";
-}
-
-// ==================================================================== kinds
-// A kind K provides: iterator, K(const vj::value& args), begin(), end(), size() (length of the
-// range), under() (the storage read WITHOUT any xtl iterator, in range order), tup(x) (an element
-// reference as a JSON tuple), put(ref, v) (assign the JSON tuple v through a reference).
-
-// ---- bitset iterators ------------------------------------------------------------------------
-// Mode: 0 iterator, 1 const_iterator, 2 reverse_iterator, 3 const_reverse_iterator
-template <class BS, int Mode> struct bit_pick;
-template <class BS> struct bit_pick<BS, 0> { using type = typename BS::iterator; static type b(BS& c) { return c.begin(); } static type e(BS& c) { return c.end(); } };
-template <class BS> struct bit_pick<BS, 1> { using type = typename BS::const_iterator; static type b(BS& c) { return c.cbegin(); } static type e(BS& c) { return c.cend(); } };
-template <class BS> struct bit_pick<BS, 2> { using type = typename BS::reverse_iterator; static type b(BS& c) { return c.rbegin(); } static type e(BS& c) { return c.rend(); } };
-template <class BS> struct bit_pick<BS, 3> { using type = typename BS::const_reverse_iterator; static type b(BS& c) { return c.crbegin(); } static type e(BS& c) { return c.crend(); } };
-
-struct bit_elem
-{
-    template <class R> static std::string tup(const R& r) { return tuple_json({bool(r) ? 1 : 0}); }
-    template <class R> static auto put(R&& r, const vj::value& v) RET(void(r = (v.a[0].i != 0)))
-};
-
-template <class B, int Mode>
-struct bit_kind : bit_elem
-{
-    using bs_t = xtl::xdynamic_bitset<B>;
-    using pick = bit_pick<bs_t, Mode>;
-    using iterator = typename pick::type;
-    static constexpr bool rev = Mode >= 2;
-    // xbitset_reference<B, true> declares operator=(bool) although its body cannot compile: never try it
-    static constexpr bool writable = (Mode % 2) == 0;
-    bs_t bs;
-    explicit bit_kind(const vj::value& a)
-    {
-        for (auto& e : elems_of(a.at("under"), rev)) bs.push_back(e.at(0) != 0);
-    }
-    iterator begin() { return pick::b(bs); }
-    iterator end() { return pick::e(bs); }
-    long long size() const { return (long long)bs.size(); }
-    std::string under() const
-    {
-        std::vector<elem_t> v;
-        for (size_t i = 0; i < bs.size(); ++i) v.push_back({bs[i] ? 1 : 0});
-        return under_json(v, rev);
-    }
-};
-
-// iterators of a bitset view over caller memory
-template <class B, int Mode>
-struct bitview_kind : bit_elem
-{
-    using bs_t = xtl::xdynamic_bitset_view<B>;
-    using pick = bit_pick<bs_t, Mode>;
-    using iterator = typename pick::type;
-    static constexpr bool rev = Mode >= 2;
-    static constexpr bool writable = (Mode % 2) == 0;
-    std::vector<B> mem;
-    std::unique_ptr<bs_t> bs;
-    explicit bitview_kind(const vj::value& a)
-    {
-        auto el = elems_of(a.at("under"), rev);
-        const size_t W = sizeof(B) * 8;
-        mem.assign((el.size() + W - 1) / W + 1, B(0));
-        bs.reset(new bs_t(mem.data(), el.size()));
-        for (size_t i = 0; i < el.size(); ++i) (*bs)[i] = (el[i].at(0) != 0);
-    }
-    iterator begin() { return pick::b(*bs); }
-    iterator end() { return pick::e(*bs); }
-    long long size() const { return (long long)bs->size(); }
-    std::string under() const
-    {
-        std::vector<elem_t> v;
-        const bs_t& c = *bs;
-        for (size_t i = 0; i < c.size(); ++i) v.push_back({c[i] ? 1 : 0});
-        return under_json(v, rev);
-    }
-};
-
-// ---- optional / complex sequences ---------------------------------------------------------------
-struct opt_elem
-{
-    template <class R> static std::string tup(const R& r) { return tuple_json({(long long)r.value(), bool(r.has_value()) ? 1 : 0}); }
-    template <class R> static auto put(R&& r, const vj::value& v) RET(void(r = xtl::xoptional<int, bool>(int(v.a[0].i), v.a[1].i != 0)))
-};
-struct cplx_elem
-{
-    template <class R> static std::string tup(const R& r) { return tuple_json({(long long)r.real(), (long long)r.imag()}); }
-    // xcomplex<double&, double&> closures: write both components through the reference
-    template <class R> static auto put(R&& r, const vj::value& v) RET(void(r.real() = double(v.a[0].i)), void(r.imag() = double(v.a[1].i)))
-};
-
-template <class C, int Mode> struct seq_pick;
-template <class C> struct seq_pick<C, 0> { using type = typename C::iterator; static type b(C& c) { return c.begin(); } static type e(C& c) { return c.end(); } };
-template <class C> struct seq_pick<C, 1> { using type = typename C::const_iterator; static type b(C& c) { return c.cbegin(); } static type e(C& c) { return c.cend(); } };
-template <class C> struct seq_pick<C, 2> { using type = typename C::reverse_iterator; static type b(C& c) { return c.rbegin(); } static type e(C& c) { return c.rend(); } };
-template <class C> struct seq_pick<C, 3> { using type = typename C::const_reverse_iterator; static type b(C& c) { return c.crbegin(); } static type e(C& c) { return c.crend(); } };
-
-template <class C, int Mode>
-struct opt_kind : opt_elem
-{
-    using pick = seq_pick<C, Mode>;
-    using iterator = typename pick::type;
-    static constexpr bool rev = Mode >= 2;
-    static constexpr bool writable = true;     // decided by SFINAE on the reference type
-    C c;
-    explicit opt_kind(const vj::value& a) : c(size_t(a.num("n")), 0)
-    {
-        auto el = elems_of(a.at("under"), rev);
-        for (size_t i = 0; i < el.size(); ++i) { c.value()[i] = int(el[i].at(0)); c.has_value()[i] = (el[i].at(1) != 0); }
-    }
-    iterator begin() { return pick::b(c); }
-    iterator end() { return pick::e(c); }
-    long long size() const { return (long long)c.size(); }
-    std::string under() const
-    {
-        std::vector<elem_t> v;
-        const auto& val = c.value();
-        const auto& flg = c.has_value();
-        // the two storages are reported independently: a flag storage of another length shows up here
-        for (size_t i = 0; i < val.size(); ++i) v.push_back({val[i], i < flg.size() ? (flg[i] ? 1 : 0) : -1});
-        return under_json(v, rev);
-    }
-};
-
-template <class C, int Mode>
-struct cplx_kind : cplx_elem
-{
-    using pick = seq_pick<C, Mode>;
-    using iterator = typename pick::type;
-    static constexpr bool rev = Mode >= 2;
-    static constexpr bool writable = true;
-    C c;
-    explicit cplx_kind(const vj::value& a) : c(size_t(a.num("n")))
-    {
-        auto el = elems_of(a.at("under"), rev);
-        for (size_t i = 0; i < el.size(); ++i) { c.real()[i] = double(el[i].at(0)); c.imag()[i] = double(el[i].at(1)); }
-    }
-    iterator begin() { return pick::b(c); }
-    iterator end() { return pick::e(c); }
-    long long size() const { return (long long)c.size(); }
-    std::string under() const
-    {
-        std::vector<elem_t> v;
-        for (size_t i = 0; i < c.real().size(); ++i) v.push_back({(long long)c.real()[i], (long long)c.imag()[i]});
-        return under_json(v, rev);
-    }
-};
-
-// ---- xstepping_iterator ---------------------------------------------------------------------------
-struct int_elem
-{
-    template <class R> static std::string tup(const R& r) { return tuple_json({(long long)r}); }
-    template <class R> static auto put(R&& r, const vj::value& v) RET(void(r = int(v.a[0].i)))
-};
-
-// Sub: 0 std::vector<int>::iterator, 1 std::vector<int>::const_iterator, 2 int*
-template <int Sub> struct step_sub;
-template <> struct step_sub<0> { using type = std::vector<int>::iterator; static type b(std::vector<int>& v) { return v.begin(); } static type e(std::vector<int>& v) { return v.end(); } };
-template <> struct step_sub<1> { using type = std::vector<int>::const_iterator; static type b(std::vector<int>& v) { return v.cbegin(); } static type e(std::vector<int>& v) { return v.cend(); } };
-template <> struct step_sub<2> { using type = int*; static type b(std::vector<int>& v) { return v.data(); } static type e(std::vector<int>& v) { return v.data() + v.size(); } };
-
-template <int Sub>
-struct step_kind : int_elem
-{
-    using sub = step_sub<Sub>;
-    using iterator = xtl::xstepping_iterator<typename sub::type>;
-    static constexpr bool writable = true;
-    std::vector<int> v;
-    long long step;
-    explicit step_kind(const vj::value& a) : step(a.num("step"))
-    {
-        for (auto& e : elems_of(a.at("under"), false)) v.push_back(int(e.at(0)));
-    }
-    iterator begin() { return xtl::make_stepping_iterator(sub::b(v), typename iterator::difference_type(step)); }
-    iterator end() { return xtl::make_stepping_iterator(sub::e(v), typename iterator::difference_type(step)); }
-    long long size() const { return (long long)v.size() / step; }
-    std::string under() const
-    {
-        std::vector<elem_t> r;
-        for (int x : v) r.push_back({x});
-        return under_json(r, false);
-    }
-};
-
-// ---- xkey_iterator / xvalue_iterator -----------------------------------------------------------------
-// Which: 0 xkey_iterator<map>, 1 xvalue_iterator<map>, 2 xvalue_iterator<const map>
-using imap = std::map<int, int>;
-template <int Which> struct map_pick;
-template <> struct map_pick<0> { using type = xtl::xkey_iterator<imap>; static type b(imap& m) { return type(m.cbegin()); } static type e(imap& m) { return type(m.cend()); } };
-template <> struct map_pick<1> { using type = xtl::xvalue_iterator<imap>; static type b(imap& m) { return type(m.begin()); } static type e(imap& m) { return type(m.end()); } };
-template <> struct map_pick<2> { using type = xtl::xvalue_iterator<const imap>; static type b(imap& m) { return type(m.cbegin()); } static type e(imap& m) { return type(m.cend()); } };
-
-template <int Which>
-struct map_kind : int_elem
-{
-    using pick = map_pick<Which>;
-    using iterator = typename pick::type;
-    static constexpr bool writable = true;
-    imap m;
-    explicit map_kind(const vj::value& a)
-    {
-        // key kind: element i is the key itself (the script gives increasing keys); value kinds:
-        // element i is the mapped value of key i
-        auto el = elems_of(a.at("under"), false);
-        for (size_t i = 0; i < el.size(); ++i)
-        {
-            if (Which == 0) m[int(el[i].at(0))] = int(el[i].at(0)) + 1000;
-            else m[int(i)] = int(el[i].at(0));
-        }
-    }
-    iterator begin() { return pick::b(m); }
-    iterator end() { return pick::e(m); }
-    long long size() const { return (long long)m.size(); }
-    std::string under() const
-    {
-        std::vector<elem_t> r;
-        for (auto& kv : m) r.push_back({Which == 0 ? kv.first : kv.second});
-        return under_json(r, false);
-    }
-};
-
-// ---- toy iterators, one on each flavour of the bases ---------------------------------------------------
-// position in a std::vector<int>; only the primitive operations are defined, everything else must
-// come from the xtl base.
-namespace toy
-{
-    struct bi1; struct bi2; struct bi3; struct ra1; struct ra2; struct ra3;
-    template <class Tag> class bidir;
-    template <class Tag> class randacc;
-
-    template <class I> struct traits
-    {
-        using iterator_type = I;
-        using value_type = int;
-        using difference_type = std::ptrdiff_t;
-        using pointer = int*;
-        using reference = int&;
-    };
-    template <class Tag> struct base_of;
-    template <> struct base_of<bi1> { using type = xtl::xbidirectional_iterator_base<bidir<bi1>, int, std::ptrdiff_t, int*, int&>; };
-    template <> struct base_of<bi2> { using type = xtl::xbidirectional_iterator_base2<traits<bidir<bi2>>>; };
-    template <> struct base_of<bi3> { using type = xtl::xbidirectional_iterator_base3<bidir<bi3>, traits<bidir<bi3>>>; };
-    template <> struct base_of<ra1> { using type = xtl::xrandom_access_iterator_base<randacc<ra1>, int, std::ptrdiff_t, int*, int&>; };
-    template <> struct base_of<ra2> { using type = xtl::xrandom_access_iterator_base2<traits<randacc<ra2>>>; };
-    template <> struct base_of<ra3> { using type = xtl::xrandom_access_iterator_base3<randacc<ra3>, traits<randacc<ra3>>>; };
-
-    template <class Tag>
-    class bidir : public base_of<Tag>::type
-    {
-    public:
-        using self_type = bidir;
-        bidir(std::vector<int>* v, std::ptrdiff_t i) : p_v(v), m_i(i) {}
-        self_type& operator++() { ++m_i; return *this; }
-        self_type& operator--() { --m_i; return *this; }
-        int& operator*() const { return (*p_v)[size_t(m_i)]; }
-        int* operator->() const { return &(*p_v)[size_t(m_i)]; }
-        bool operator==(const self_type& rhs) const { return p_v == rhs.p_v && m_i == rhs.m_i; }
-    private:
-        std::vector<int>* p_v;
-        std::ptrdiff_t m_i;
-    };
-
-    template <class Tag>
-    class randacc : public base_of<Tag>::type
-    {
-    public:
-        using self_type = randacc;
-        using difference_type = std::ptrdiff_t;
-        randacc(std::vector<int>* v, std::ptrdiff_t i) : p_v(v), m_i(i) {}
-        self_type& operator++() { ++m_i; return *this; }
-        self_type& operator--() { --m_i; return *this; }
-        self_type& operator+=(difference_type n) { m_i += n; return *this; }
-        self_type& operator-=(difference_type n) { m_i -= n; return *this; }
-        difference_type operator-(const self_type& rhs) const { return m_i - rhs.m_i; }
-        int& operator*() const { return (*p_v)[size_t(m_i)]; }
-        int* operator->() const { return &(*p_v)[size_t(m_i)]; }
-        bool operator==(const self_type& rhs) const { return p_v == rhs.p_v && m_i == rhs.m_i; }
-        bool operator<(const self_type& rhs) const { return m_i < rhs.m_i; }
-    private:
-        std::vector<int>* p_v;
-        std::ptrdiff_t m_i;
-    };
-
-    // random access base + size_t extension.  D = int reproduces the upstream test's toy (which also
-    // defines += / -= for size_t); D = std::ptrdiff_t with only the difference_type primitives is
-    // the other way a client can use the extension.
-    template <class D, bool SizeAssign>
-    class ext : public xtl::xrandom_access_iterator_base<ext<D, SizeAssign>, int, D, int*, int&>,
-                public xtl::xrandom_access_iterator_ext<ext<D, SizeAssign>, int&>
-    {
-    public:
-        using self_type = ext;
-        using base_type = xtl::xrandom_access_iterator_base<self_type, int, D, int*, int&>;
-        using ext_type = xtl::xrandom_access_iterator_ext<self_type, int&>;
-        using difference_type = D;
-        using reference = int&;
-        using size_type = std::size_t;
-        ext(std::vector<int>* v, std::ptrdiff_t i) : p_v(v), m_i(i) {}
-        self_type& operator++() { ++m_i; return *this; }
-        self_type& operator--() { --m_i; return *this; }
-        self_type& operator+=(difference_type n) { m_i += n; return *this; }
-        self_type& operator-=(difference_type n) { m_i -= n; return *this; }
-        template <class S, class = std::enable_if_t<SizeAssign && std::is_same<S, size_type>::value>>
-        self_type& operator+=(S n) { m_i += std::ptrdiff_t(n); return *this; }
-        template <class S, class = std::enable_if_t<SizeAssign && std::is_same<S, size_type>::value>>
-        self_type& operator-=(S n) { m_i -= std::ptrdiff_t(n); return *this; }
-        int& operator*() const { return (*p_v)[size_t(m_i)]; }
-        int* operator->() const { return &(*p_v)[size_t(m_i)]; }
-        using base_type::operator[];
-        using ext_type::operator[];
-        std::vector<int>* p_v;
-        std::ptrdiff_t m_i;
-    };
-    template <class D, bool S> inline D operator-(const ext<D, S>& l, const ext<D, S>& r) { return D(l.m_i - r.m_i); }
-    template <class D, bool S> inline bool operator==(const ext<D, S>& l, const ext<D, S>& r) { return l.p_v == r.p_v && l.m_i == r.m_i; }
-    template <class D, bool S> inline bool operator<(const ext<D, S>& l, const ext<D, S>& r) { return l.m_i < r.m_i; }
-}
-
-template <class It>
-struct toy_kind : int_elem
-{
-    using iterator = It;
-    static constexpr bool writable = true;
-    std::vector<int> v;
-    explicit toy_kind(const vj::value& a)
-    {
-        for (auto& e : elems_of(a.at("under"), false)) v.push_back(int(e.at(0)));
-    }
-    iterator begin() { return iterator(&v, 0); }
-    iterator end() { return iterator(&v, std::ptrdiff_t(v.size())); }
-    long long size() const { return (long long)v.size(); }
-    std::string under() const
-    {
-        std::vector<elem_t> r;
-        for (int x : v) r.push_back({x});
-        return under_json(r, false);
-    }
-};
-
 // ==================================================================== the session
 struct isession
 {
@@ -438,11 +60,14 @@ struct dead_session : isession
     std::string proj() override { return "{\"unsupported\":true}"; }
 };
 
-template <class K, bool ArrowCompiles = true>
+template <class K, unsigned Caps = c12::CAP_ALL>
 struct session : isession
 {
     using It = typename K::iterator;
-    using D = typename It::difference_type;
+    using D = typename c12::diff_of<It>::type;      // It::difference_type (std::ptrdiff_t if the tree's iterator has none)
+    template <unsigned Bit> using cap = std::integral_constant<bool, (Caps & Bit) != 0>;
+    template <unsigned Bit> using wcap = std::integral_constant<bool, (Caps & Bit) != 0 && K::algo_writable>;
+    using traits_ok = c12::has_traits<It>;
     K c;
     It it[2];
     explicit session(const vj::value& a) : c(a), it{c.begin(), c.begin()} {}
@@ -473,7 +98,7 @@ struct session : isession
     std::string proj() override
     {
         vj::out o;
-        o.kv("n", c.size()).kraw("under", c.under()).kraw("a", obs(it[0])).kraw("b", obs(it[1]));
+        o.kv("n", c.size()).kraw("under", under_json(c.under_v())).kraw("a", obs(it[0])).kraw("b", obs(it[1]));
         return o.obj();
     }
     // ---- result constructors (non-template parameters: a wrong result type is a substitution failure too)
@@ -486,7 +111,7 @@ struct session : isession
 
     template <class P> std::string arrow_impl(const It& x, std::true_type)
     {
-        return attempt(UNSUP, [](session& s, const auto& y) RET(s.elemres(*(y.operator->()))), *this, x);
+        return attempt(UNSUP, [](session& s, const auto& y) RET(void(y.operator->()), s.strres(c12::arrow_of<K>(y))), *this, x);
     }
     template <class P> std::string arrow_impl(const It&, std::false_type) { return UNSUP; }
     std::string write_impl(const It& x, const vj::value& v, std::true_type)
@@ -500,12 +125,86 @@ struct session : isession
     }
     std::string iwrite_impl(const It&, D, const vj::value&, std::false_type) { return UNSUP; }
 
-    std::string seqres(const std::vector<std::string>& v)
+    std::string seqres(const std::vector<std::string>& v) { return "{\"val\":" + c12::seq_json(v) + "}"; }
+    std::string strres(const std::string& json) { return "{\"val\":" + json + "}"; }
+
+    // ---- std algorithms over [y, z): only for kinds usable with std::iterator_traits (tag dispatch: the
+    // algorithms' bodies must not even be instantiated for the others)
+    std::string algo(const std::string& op, const It& y, const It& z, const vj::value& a, std::true_type)
     {
-        std::string s = "{\"val\":[";
-        for (size_t i = 0; i < v.size(); ++i) { if (i) s += ','; s += v[i]; }
-        return s + "]}";
+        if (op == "StdCopy")         return strres(c12::algo_copy<K>(y, z));
+        if (op == "StdCopyBackward") return strres(c12::algo_copy_backward<K>(y, z));
+        if (op == "StdReverseCopy")  return strres(c12::algo_reverse_copy<K>(y, z));
+        if (op == "StdFind")         return itres(c12::algo_find<K>(y, z, elem_of(a.at("v"))));
+        if (op == "StdCount")        return numres(c12::algo_count<K>(y, z, elem_of(a.at("v"))));
+        if (op == "StdLowerBound")   return itres(c12::algo_lower_bound<K>(y, z, elem_of(a.at("v"))));
+        if (op == "StdEqual")
+        {
+            It t = c.begin();
+            for (long long i = 0; i < a.num("j"); ++i) ++t;
+            return boolres(c12::algo_equal<K>(y, z, t));
+        }
+        if (op == "StdFill")    return fill_impl(y, z, elem_of(a.at("v")), wcap<c12::CAP_FILL>());
+        if (op == "StdReverse") return reverse_impl(y, z, wcap<c12::CAP_REVERSE>());
+        if (op == "StdSort")    return sort_impl(y, z, wcap<c12::CAP_SORT>());
+        std::fprintf(stderr, "script: unknown algorithm %s\n", op.c_str());
+        std::exit(3);
     }
+    std::string algo(const std::string&, const It&, const It&, const vj::value&, std::false_type) { return UNSUP; }
+    std::string fill_impl(const It& y, const It& z, const elem_t& v, std::true_type) { c12::algo_fill<K>(y, z, v); return voidres(); }
+    std::string fill_impl(const It&, const It&, const elem_t&, std::false_type) { return UNSUP; }
+    std::string reverse_impl(const It& y, const It& z, std::true_type) { c12::algo_reverse<K>(y, z); return voidres(); }
+    std::string reverse_impl(const It&, const It&, std::false_type) { return UNSUP; }
+    std::string sort_impl(const It& y, const It& z, std::true_type)
+    {
+        return attempt(UNSUP, [](session& s, const auto& yy, const auto& zz) RET(void(yy < zz), void(yy + D(1)), s.do_sort(yy, zz)), *this, y, z);
+    }
+    std::string sort_impl(const It&, const It&, std::false_type) { return UNSUP; }
+    std::string do_sort(const It& y, const It& z) { c12::algo_sort<K>(y, z); return voidres(); }
+
+    // ---- traversal through std::reverse_iterator<It>
+    std::string stdrev(bool indexed, std::true_type)
+    {
+        if (!indexed)
+        {
+            std::vector<std::string> out;
+            const size_t cap = size_t(c.size()) + 2;
+            std::reverse_iterator<It> r(c.end()), e(c.begin());
+            for (; r != e && out.size() < cap; ++r) out.push_back(K::tup(*r));
+            return seqres(out);
+        }
+        // the members of std::reverse_iterator are not SFINAE-friendly: r[i] and e - r are instantiated only when
+        // it - n, it + n (yielding It) and b - a exist for the underlying iterator
+        return attempt(UNSUP, [](session& s, const auto& b) RET(void(static_cast<const It&>(b - D(1))), void(static_cast<const It&>(b + D(1))),
+                                                                void(D(b - b)), s.stdrev_indexed()), *this, c.begin());
+    }
+    std::string stdrev(bool, std::false_type) { return UNSUP; }
+    std::string stdrev_indexed()
+    {
+        std::vector<std::string> out;
+        const size_t cap = size_t(c.size()) + 2;
+        std::reverse_iterator<It> r(c.end()), e(c.begin());
+        for (D i = 0; i < e - r && out.size() < cap; ++i) out.push_back(K::tup(r[i]));
+        return seqres(out);
+    }
+
+    // ---- value-initialised iterators
+    std::string valueinit(const std::string& o, std::true_type)
+    {
+        It a{}, b{};
+        const It& ca = a;
+        const It& cb = b;
+        session& S = *this;
+        if (o == "eq") return attempt(UNSUP, [](session& s, const auto& y, const auto& z) RET(s.boolres(y == z)), S, ca, cb);
+        if (o == "ne") return attempt(UNSUP, [](session& s, const auto& y, const auto& z) RET(s.boolres(y != z)), S, ca, cb);
+        if (o == "lt") return attempt(UNSUP, [](session& s, const auto& y, const auto& z) RET(s.boolres(y < z)), S, ca, cb);
+        if (o == "le") return attempt(UNSUP, [](session& s, const auto& y, const auto& z) RET(s.boolres(y <= z)), S, ca, cb);
+        if (o == "gt") return attempt(UNSUP, [](session& s, const auto& y, const auto& z) RET(s.boolres(y > z)), S, ca, cb);
+        if (o == "ge") return attempt(UNSUP, [](session& s, const auto& y, const auto& z) RET(s.boolres(y >= z)), S, ca, cb);
+        std::fprintf(stderr, "script: unknown ValueInit comparison %s\n", o.c_str());
+        std::exit(3);
+    }
+    std::string valueinit(const std::string&, std::false_type) { return UNSUP; }
 
     std::string exec(const vj::value& e) override
     {
@@ -522,6 +221,7 @@ struct session : isession
         session& S = *this;
 
         if (op == "Reset") return voidres();
+        if (op == "SelfTestSpin") { volatile unsigned long spin = 0; for (;;) spin = spin + 1; }   // ./verif selftest C12: the per-call CPU limit
         if (op == "Seat")
         {
             const std::string& via = a.str("via");
@@ -544,7 +244,7 @@ struct session : isession
         if (op == "PreDec")  return attempt(UNSUP, [](session& s, auto& y) RET(s.itres(--y)), S, x);
         if (op == "PostDec") return attempt(UNSUP, [](session& s, auto& y) RET(s.itres(y--)), S, x);
         if (op == "Deref")   return attempt(UNSUP, [](session& s, const auto& y) RET(s.elemres(*y)), S, cx);
-        if (op == "Arrow")   return arrow_impl<void>(cx, std::integral_constant<bool, ArrowCompiles>());
+        if (op == "Arrow")   return arrow_impl<void>(cx, cap<c12::CAP_ARROW>());
         if (op == "Eq")      return attempt(UNSUP, [](session& s, const auto& y, const auto& z) RET(s.boolres(y == z)), S, cx, cz);
         if (op == "Ne")      return attempt(UNSUP, [](session& s, const auto& y, const auto& z) RET(s.boolres(y != z)), S, cx, cz);
         if (op == "Lt")      return attempt(UNSUP, [](session& s, const auto& y, const auto& z) RET(s.boolres(y < z)), S, cx, cz);
@@ -571,6 +271,11 @@ struct session : isession
             return attempt(UNSUP, [](session& s, auto& y, D k) RET(void(typename std::iterator_traits<std::decay_t<decltype(y)>>::iterator_category()), s.itres(std::next(y, k))), S, cx, d);
         if (op == "StdPrev")
             return attempt(UNSUP, [](session& s, auto& y, D k) RET(void(typename std::iterator_traits<std::decay_t<decltype(y)>>::iterator_category()), s.itres(std::prev(y, k))), S, cx, d);
+        if (op == "EqualM")    return attempt(UNSUP, [](session& s, const auto& y, const auto& z) RET(s.boolres(y.equal(z))), S, cx, cz);
+        if (op == "LessThanM") return attempt(UNSUP, [](session& s, const auto& y, const auto& z) RET(s.boolres(y.less_than(z))), S, cx, cz);
+        if (op == "ValueInit") return valueinit(a.str("o"), std::is_default_constructible<It>());
+        if (op.compare(0, 3, "Std") == 0 && op != "StdAdvance" && op != "StdDistance" && op != "StdNext" && op != "StdPrev")
+            return algo(op, cx, cz, a, traits_ok());
         if (op == "Write") return write_impl(cx, a.at("v"), std::integral_constant<bool, K::writable>());
         if (op == "IndexWrite") return iwrite_impl(cx, d, a.at("v"), std::integral_constant<bool, K::writable>());
         if (op == "TraverseForward" || op == "TraverseReverse")
@@ -613,6 +318,8 @@ struct session : isession
                 else if (how == "minus")
                     r = attempt(UNSUP, [&out, cap](auto t, const auto& bb) -> decltype(void(t = t - D(1)), void(t != bb), std::string())
                         { while (t != bb && out.size() < cap) { t = t - D(1); out.push_back(K::tup(*t)); } return "ok"; }, en, b);
+                else if (how == "stdrev") return stdrev(false, traits_ok());
+                else if (how == "stdrevidx") return stdrev(true, traits_ok());
                 else { std::fprintf(stderr, "script: unknown how %s\n", how.c_str()); std::exit(3); }
             }
             if (r != "ok") return r;
@@ -624,86 +331,204 @@ struct session : isession
 };
 
 // ==================================================================== kind table
-template <class K, bool Arrow = true>
-static std::unique_ptr<isession> mk(const vj::value& a)
-{
-    return std::unique_ptr<isession>(new session<K, Arrow>(a));
-}
-
-#ifdef C12_NO_STEP_ARROW
-static constexpr bool STEP_ARROW = false;
-#else
-static constexpr bool STEP_ARROW = true;
+// capability masks (bodies SFINAE cannot see), one per kind, set by checks/c12.py from its compile probes
+#ifndef CAPS_bit8_it
+#define CAPS_bit8_it c12::CAP_ALL
+#endif
+#ifndef CAPS_bit8_cit
+#define CAPS_bit8_cit c12::CAP_ALL
+#endif
+#ifndef CAPS_bit8_rit
+#define CAPS_bit8_rit c12::CAP_ALL
+#endif
+#ifndef CAPS_bit8_crit
+#define CAPS_bit8_crit c12::CAP_ALL
+#endif
+#ifndef CAPS_bit64_it
+#define CAPS_bit64_it c12::CAP_ALL
+#endif
+#ifndef CAPS_bit64_cit
+#define CAPS_bit64_cit c12::CAP_ALL
+#endif
+#ifndef CAPS_bitv8_it
+#define CAPS_bitv8_it c12::CAP_ALL
+#endif
+#ifndef CAPS_bitv8_cit
+#define CAPS_bitv8_cit c12::CAP_ALL
+#endif
+#ifndef CAPS_optvec_it
+#define CAPS_optvec_it c12::CAP_ALL
+#endif
+#ifndef CAPS_optvec_cit
+#define CAPS_optvec_cit c12::CAP_ALL
+#endif
+#ifndef CAPS_optvec_rit
+#define CAPS_optvec_rit c12::CAP_ALL
+#endif
+#ifndef CAPS_optvec_crit
+#define CAPS_optvec_crit c12::CAP_ALL
+#endif
+#ifndef CAPS_cplxvec_it
+#define CAPS_cplxvec_it c12::CAP_ALL
+#endif
+#ifndef CAPS_cplxvec_cit
+#define CAPS_cplxvec_cit c12::CAP_ALL
+#endif
+#ifndef CAPS_cplxvec_rit
+#define CAPS_cplxvec_rit c12::CAP_ALL
+#endif
+#ifndef CAPS_cplxvec_crit
+#define CAPS_cplxvec_crit c12::CAP_ALL
+#endif
+#ifndef CAPS_step_vec
+#define CAPS_step_vec c12::CAP_ALL
+#endif
+#ifndef CAPS_step_cvec
+#define CAPS_step_cvec c12::CAP_ALL
+#endif
+#ifndef CAPS_step_ptr
+#define CAPS_step_ptr c12::CAP_ALL
+#endif
+#ifndef CAPS_key_map
+#define CAPS_key_map c12::CAP_ALL
+#endif
+#ifndef CAPS_value_map
+#define CAPS_value_map c12::CAP_ALL
+#endif
+#ifndef CAPS_cvalue_map
+#define CAPS_cvalue_map c12::CAP_ALL
+#endif
+#ifndef CAPS_toy_bi1
+#define CAPS_toy_bi1 c12::CAP_ALL
+#endif
+#ifndef CAPS_toy_bi2
+#define CAPS_toy_bi2 c12::CAP_ALL
+#endif
+#ifndef CAPS_toy_bi3
+#define CAPS_toy_bi3 c12::CAP_ALL
+#endif
+#ifndef CAPS_toy_ra1
+#define CAPS_toy_ra1 c12::CAP_ALL
+#endif
+#ifndef CAPS_toy_ra2
+#define CAPS_toy_ra2 c12::CAP_ALL
+#endif
+#ifndef CAPS_toy_ra3
+#define CAPS_toy_ra3 c12::CAP_ALL
+#endif
+#ifndef CAPS_toy_ext_int
+#define CAPS_toy_ext_int c12::CAP_ALL
+#endif
+#ifndef CAPS_toy_ext_long
+#define CAPS_toy_ext_long c12::CAP_ALL
+#endif
+#ifndef CAPS_optvec_srit
+#define CAPS_optvec_srit c12::CAP_ALL
+#endif
+#ifndef CAPS_cplxvec_srit
+#define CAPS_cplxvec_srit c12::CAP_ALL
+#endif
+#ifndef CAPS_step_srit
+#define CAPS_step_srit c12::CAP_ALL
+#endif
+#ifndef CAPS_toyra_srit
+#define CAPS_toyra_srit c12::CAP_ALL
+#endif
+#ifndef CAPS_optarr_it
+#define CAPS_optarr_it c12::CAP_ALL
+#endif
+#ifndef CAPS_optarr_cit
+#define CAPS_optarr_cit c12::CAP_ALL
+#endif
+#ifndef CAPS_optarr_rit
+#define CAPS_optarr_rit c12::CAP_ALL
+#endif
+#ifndef CAPS_cplxarr_it
+#define CAPS_cplxarr_it c12::CAP_ALL
+#endif
+#ifndef CAPS_cplxarr_cit
+#define CAPS_cplxarr_cit c12::CAP_ALL
+#endif
+#ifndef CAPS_cplxarr_rit
+#define CAPS_cplxarr_rit c12::CAP_ALL
 #endif
 
-template <template <std::size_t> class KN>
+template <class K, unsigned Caps>
+static std::unique_ptr<isession> mk(const vj::value& a)
+{
+    return std::unique_ptr<isession>(new session<K, Caps>(a));
+}
+
+template <template <std::size_t> class KN, unsigned Caps>
 static std::unique_ptr<isession> mk_sized(const vj::value& a)
 {
     switch (a.num("n"))
     {
-    case 0: return mk<typename KN<0>::type>(a);
-    case 1: return mk<typename KN<1>::type>(a);
-    case 2: return mk<typename KN<2>::type>(a);
-    case 3: return mk<typename KN<3>::type>(a);
-    case 4: return mk<typename KN<4>::type>(a);
-    case 5: return mk<typename KN<5>::type>(a);
-    case 6: return mk<typename KN<6>::type>(a);
+    case 0: return mk<KN<0>, Caps>(a);
+    case 1: return mk<KN<1>, Caps>(a);
+    case 2: return mk<KN<2>, Caps>(a);
+    case 3: return mk<KN<3>, Caps>(a);
+    case 4: return mk<KN<4>, Caps>(a);
+    case 5: return mk<KN<5>, Caps>(a);
+    case 6: return mk<KN<6>, Caps>(a);
     default: std::fprintf(stderr, "script: array kinds support n <= 6\n"); std::exit(3);
     }
 }
-template <std::size_t N> struct optarr_it   { using type = opt_kind<xtl::xoptional_array<int, N>, 0>; };
-template <std::size_t N> struct optarr_cit  { using type = opt_kind<xtl::xoptional_array<int, N>, 1>; };
-template <std::size_t N> struct optarr_rit  { using type = opt_kind<xtl::xoptional_array<int, N>, 2>; };
-template <std::size_t N> struct cplxarr_it  { using type = cplx_kind<xtl::xcomplex_array<double, N>, 0>; };
-template <std::size_t N> struct cplxarr_cit { using type = cplx_kind<xtl::xcomplex_array<double, N>, 1>; };
-template <std::size_t N> struct cplxarr_rit { using type = cplx_kind<xtl::xcomplex_array<double, N>, 2>; };
+
+#define KIND(name) if (kind == #name) return mk<k_##name, CAPS_##name>(a);
+#ifdef C12_NO_ARRAY_ITERATORS
+#define ARRAY_KIND(name) if (kind == #name) return std::unique_ptr<isession>(new dead_session());
+#else
+#define ARRAY_KIND(name) if (kind == #name) return mk_sized<k_##name, CAPS_##name>(a);
+#endif
 
 static std::unique_ptr<isession> make_session(const std::string& kind, const vj::value& a)
 {
 #if GROUP(0)
-    if (kind == "bit8_it")    return mk<bit_kind<std::uint8_t, 0>>(a);
-    if (kind == "bit8_cit")   return mk<bit_kind<std::uint8_t, 1>>(a);
-    if (kind == "bit8_rit")   return mk<bit_kind<std::uint8_t, 2>>(a);
-    if (kind == "bit8_crit")  return mk<bit_kind<std::uint8_t, 3>>(a);
-    if (kind == "bit64_it")   return mk<bit_kind<std::uint64_t, 0>>(a);
-    if (kind == "bit64_cit")  return mk<bit_kind<std::uint64_t, 1>>(a);
-    if (kind == "bitv8_it")   return mk<bitview_kind<std::uint8_t, 0>>(a);
-    if (kind == "bitv8_cit")  return mk<bitview_kind<std::uint8_t, 1>>(a);
+    KIND(bit8_it)
+    KIND(bit8_cit)
+    KIND(bit64_it)
+    KIND(bit64_cit)
+    KIND(bitv8_it)
+    KIND(bitv8_cit)
 #endif
 #if GROUP(1)
-    if (kind == "optvec_it")   return mk<opt_kind<xtl::xoptional_vector<int>, 0>>(a);
-    if (kind == "optvec_cit")  return mk<opt_kind<xtl::xoptional_vector<int>, 1>>(a);
-    if (kind == "optvec_rit")  return mk<opt_kind<xtl::xoptional_vector<int>, 2>>(a);
-    if (kind == "optvec_crit") return mk<opt_kind<xtl::xoptional_vector<int>, 3>>(a);
+    KIND(optvec_it)
+    KIND(optvec_cit)
+    KIND(optvec_rit)
+    KIND(optvec_crit)
 #endif
 #if GROUP(2)
-    if (kind == "cplxvec_it")   return mk<cplx_kind<xtl::xcomplex_vector<double>, 0>>(a);
-    if (kind == "cplxvec_cit")  return mk<cplx_kind<xtl::xcomplex_vector<double>, 1>>(a);
-    if (kind == "cplxvec_rit")  return mk<cplx_kind<xtl::xcomplex_vector<double>, 2>>(a);
-    if (kind == "cplxvec_crit") return mk<cplx_kind<xtl::xcomplex_vector<double>, 3>>(a);
+    KIND(cplxvec_it)
+    KIND(cplxvec_cit)
+    KIND(cplxvec_rit)
+    KIND(cplxvec_crit)
 #endif
 #if GROUP(3)
-    if (kind == "step_vec")  return mk<step_kind<0>, STEP_ARROW>(a);
-    if (kind == "step_cvec") return mk<step_kind<1>, STEP_ARROW>(a);
-    if (kind == "step_ptr")  return mk<step_kind<2>>(a);
-    if (kind == "key_map")    return mk<map_kind<0>>(a);
-    if (kind == "value_map")  return mk<map_kind<1>>(a);
-    if (kind == "cvalue_map") return mk<map_kind<2>>(a);
+    KIND(step_vec)
+    KIND(step_cvec)
+    KIND(step_ptr)
+    KIND(key_map)
+    KIND(value_map)
+    KIND(cvalue_map)
 #endif
 #if GROUP(4)
-    if (kind == "toy_bi1") return mk<toy_kind<toy::bidir<toy::bi1>>>(a);
-    if (kind == "toy_bi2") return mk<toy_kind<toy::bidir<toy::bi2>>>(a);
-    if (kind == "toy_bi3") return mk<toy_kind<toy::bidir<toy::bi3>>>(a);
-    if (kind == "toy_ra1") return mk<toy_kind<toy::randacc<toy::ra1>>>(a);
-    if (kind == "toy_ra2") return mk<toy_kind<toy::randacc<toy::ra2>>>(a);
-    if (kind == "toy_ra3") return mk<toy_kind<toy::randacc<toy::ra3>>>(a);
-    if (kind == "toy_ext_int")  return mk<toy_kind<toy::ext<int, true>>>(a);
-    if (kind == "toy_ext_long") return mk<toy_kind<toy::ext<std::ptrdiff_t, false>>>(a);
+    KIND(toy_bi1)
+    KIND(toy_bi2)
+    KIND(toy_bi3)
+    KIND(toy_ra1)
+    KIND(toy_ra2)
+    KIND(toy_ra3)
+    KIND(toy_ext_int)
+    KIND(toy_ext_long)
 #endif
-#ifdef C12_NO_ARRAY_ITERATORS
-#define ARRAY_KIND(name) if (kind == #name) return std::unique_ptr<isession>(new dead_session());
-#else
-#define ARRAY_KIND(name) if (kind == #name) return mk_sized<name>(a);
+#if GROUP(11)
+    KIND(bit8_rit)
+    KIND(bit8_crit)
+    KIND(optvec_srit)
+    KIND(cplxvec_srit)
+    KIND(step_srit)
+    KIND(toyra_srit)
 #endif
     // one group per array kind: seven container sizes are seven instantiations of the session
 #if GROUP(5)
@@ -729,7 +554,8 @@ static std::unique_ptr<isession> make_session(const std::string& kind, const vj:
 }
 
 // A call that does not return (an iterator that never reaches end() on a broken tree) must end the
-// trace like a crash does, not hang the check: 5 s of CPU time per call, re-armed at every event.
+// trace like a crash does, not hang the check: 2 s of CPU time per call, re-armed at every event
+// (the longest legitimate call, a traversal or std::sort of 70 elements at -O0 with ASan, takes microseconds).
 static void on_timeout(int)
 {
     std::fflush(stdout);
@@ -748,7 +574,7 @@ int main()
         if (line.empty()) continue;
         vj::value e = vj::parse(line);
         if (e.find("_meta")) continue;
-        struct itimerval tv = {{0, 0}, {5, 0}};
+        struct itimerval tv = {{0, 0}, {2, 0}};
         setitimer(ITIMER_VIRTUAL, &tv, nullptr);
         const std::string& op = e.str("op");
         if (op == "Reset") s = make_session(e.at("a").str("kind"), e.at("a"));
